@@ -136,7 +136,8 @@ pub fn run(case: &Value, _params: &Params, out: &mut Vec<Value>) {
             "quant" => {
                 let axis = jint(case, "axis") as usize;
                 let qv: Vec<bool> = case["qv"].as_array().map(|x| x.iter().map(|b| b.as_bool().unwrap()).collect()).unwrap_or_default();
-                let bads = [-0.5, 1.5, 7.0, -2.0];
+                // the kinds of invalid q alternate, starting with q > 1 or q < 0 depending on the row
+                let bads = if s1.iter().sum::<usize>() % 2 == 0 { [1.5, -0.5, 7.0, -2.0] } else { [-0.5, 1.5, -2.0, 7.0] };
                 let goods = [0.5, 0.25, 1.0, 0.0];
                 let qs: Vec<f64> = qv.iter().enumerate().map(|(k, &ok)| if ok { goods[k % 4] } else { bads[k % 4] }).collect();
                 let qarr: Array1<N64> = qs.iter().map(|&q| n64(q)).collect();
